@@ -33,6 +33,13 @@ What is modelled, and how the stdlib pieces are treated:
   `ContinueOnIgnoredError`.  What `net/http` parses out of the request (header values under
   the canonical key, `URL.Query()[name]`, `Request.Form[name]`, `Request.Cookies()`, and the router's path parameters) is
   passed in per lookup source as a list of `(name, value)` pairs.
+* round 4: the complete closures `basicAuthMW` / `keyAuthMW` (the configured Skipper is consulted
+  first; its answer for the request is an input), the convenience constructors `BasicAuth(fn)` /
+  `KeyAuth(fn)` (default realm; `keyCtorCfg`: lookup `header:Authorization`, scheme `Bearer`, no
+  ErrorHandler), the nil-validator constructor panic (`config-panic` in `runLine`), the value of the
+  WWW-Authenticate challenge (`wwwValue`; `strconv.Quote` of a custom realm is passed in), and the
+  exported `CreateExtractors(lookups)` = `createExtractors lookups ""` (no defaults; the empty
+  string yields no extractor), each extractor applied to what net/http located.
 -/
 namespace C13
 
@@ -167,6 +174,21 @@ def basicAuth (V : Str → Str → Outcome) (dec : Str → Option Str) (hdrs : L
       else some (unauthorized [])
   else some (unauthorized [])
 
+/-- the whole `BasicAuthWithConfig` closure: `if config.Skipper(c) { return next(c) }` comes first.
+    `skip` is what the configured Skipper answers for this request (the default Skipper: `false`). -/
+def basicAuthMW (skip : Bool) (V : Str → Str → Outcome) (dec : Str → Option Str) (hdrs : List Str) :
+    Option BObs :=
+  if skip then some ⟨true, 200, false, []⟩ else basicAuth V dec hdrs
+
+def defaultRealm : Str := "Restricted".toList
+
+/-- value of the WWW-Authenticate header of a 401: `basic realm=` followed by the bare word
+    `Restricted` for the default realm (an empty `Realm` is replaced by it in the constructor, and
+    `BasicAuth(fn)` uses it), otherwise by `strconv.Quote(config.Realm)`, which is passed in
+    (`quoted`, computed by the harness with the stdlib function). -/
+def wwwValue (realm quoted : Str) : Str :=
+  "basic realm=".toList ++ (if realm = [] ∨ realm = defaultRealm then defaultRealm else quoted)
+
 /-! ## KeyAuth: configuration -/
 
 inductive Kind where
@@ -209,11 +231,20 @@ def parseSources (scheme : Str) : List Str → Option (List Src)
     | some none, some xs => some xs
     | _, _ => none
 
+/-- `createExtractors(lookups, authScheme)`: the empty lookup string gives no extractor and no error
+    (extractor.go:51-53); reachable only through the exported `CreateExtractors("")`, because
+    `KeyAuthWithConfig` replaces an empty KeyLookup by its default first -/
+def createExtractors (lookups scheme : Str) : Option (List Src) :=
+  if lookups = [] then some [] else parseSources scheme (splitOn ',' lookups)
+
+def defaultScheme : Str := "Bearer".toList
+def defaultLookup : Str := "header:Authorization".toList
+
 /-- `KeyAuthWithConfig` defaults + `createExtractors` -/
 def parseLookups (lookups scheme : Str) : Option (List Src) :=
-  let scheme := if scheme = [] then "Bearer".toList else scheme
-  let lookups := if lookups = [] then "header:Authorization".toList else lookups
-  parseSources scheme (splitOn ',' lookups)
+  let scheme := if scheme = [] then defaultScheme else scheme
+  let lookups := if lookups = [] then defaultLookup else lookups
+  createExtractors lookups scheme
 
 /-! ## KeyAuth: extractors -/
 
@@ -356,7 +387,7 @@ structure KCfg where
   sources : List Src
   eh : EH
   cont : Bool             -- ContinueOnIgnoredError
-deriving Repr, Inhabited
+deriving DecidableEq, Repr, Inhabited
 
 structure KObs where
   ran : Bool
@@ -405,6 +436,18 @@ def keyAuth (V : Str → Outcome) (cfg : KCfg) (data : List (List (Str × Str)))
   | none => none
   | some l => finish cfg l
 
+/-- the whole `KeyAuthWithConfig` closure: the Skipper is consulted before any extractor runs -/
+def keyAuthMW (skip : Bool) (V : Str → Outcome) (cfg : KCfg) (data : List (List (Str × Str))) :
+    Option KObs :=
+  if skip then some ⟨true, 200, 0, []⟩ else keyAuth V cfg data
+
+/-- `KeyAuth(fn)`: `DefaultKeyAuthConfig` with the validator filled in — lookup
+    `header:Authorization`, scheme `Bearer`, no ErrorHandler -/
+def keyCtorCfg : Option KCfg :=
+  match parseLookups [] [] with
+  | none => none
+  | some srcs => some ⟨srcs, .absent, false⟩
+
 /-! ## wire -/
 open Wire
 
@@ -432,18 +475,26 @@ def pPair : P (Str × Str) := do
   pure (a, b)
 
 inductive Op where
-  | basic (hdrs : List Str) (dflt : Outcome) (tbl : List ((Str × Str) × Outcome))
-  | key (lookups scheme : Str) (eh : EH) (cont : Bool) (data : List (List (Str × Str)))
-        (dflt : Outcome) (tbl : List (Str × Outcome))
+  | basic (ctor : Nat) (skip : Bool) (realm quoted : Str) (hdrs : List Str) (dflt : Outcome)
+          (tbl : List ((Str × Str) × Outcome))
+  | key (ctor : Nat) (skip : Bool) (lookups scheme : Str) (eh : EH) (cont : Bool)
+        (data : List (List (Str × Str))) (dflt : Outcome) (tbl : List (Str × Outcome))
+  | extractors (lookups : Str) (data : List (List (Str × Str)))
 
 def pOp : P Op := do
   let mode ← nat
   if mode = 0 then
+    let ctor ← nat
+    let skip ← bool
+    let realm ← str
+    let quoted ← str
     let hdrs ← list str
     let dflt ← pOutcome
     let tbl ← list (do let k ← pPair; let o ← pOutcome; pure (k, o))
-    pure (.basic hdrs dflt tbl)
-  else
+    pure (.basic ctor skip realm quoted hdrs dflt tbl)
+  else if mode = 1 then
+    let ctor ← nat
+    let skip ← bool
     let lookups ← str
     let scheme ← str
     let eh ← pEH
@@ -451,7 +502,11 @@ def pOp : P Op := do
     let data ← list (list pPair)
     let dflt ← pOutcome
     let tbl ← list (do let k ← str; let o ← pOutcome; pure (k, o))
-    pure (.key lookups scheme eh cont data dflt tbl)
+    pure (.key ctor skip lookups scheme eh cont data dflt tbl)
+  else
+    let lookups ← str
+    let data ← list (list pPair)
+    pure (.extractors lookups data)
 
 def encBObs (o : BObs) : String :=
   render ([encBool o.ran, toString o.status, encBool o.www] ++
@@ -461,23 +516,59 @@ def encKObs (o : KObs) : String :=
   render ([encBool o.ran, toString o.status, toString o.ehClass] ++
     encList (fun c => [encStr c]) o.calls)
 
-/-- basic: `0 nhdr hdr* dflt ntbl (u p outcome)*`  →  `ran status www ncalls (u p)*`
-    key:   `1 lookups scheme eh cont nsrc (npairs (name value)*)* dflt ntbl (key outcome)*`
-           →  `ran status ehClass ncalls key*`;  `panic` / `config-panic` otherwise -/
+def encExt : Ext → Option (List String)
+  | .panic => none
+  | .fail _ => some ["0"]            -- the error classes differ only in their message text
+  | .keys ks => some ("1" :: encList (fun k => [encStr k]) ks)
+
+def encExts : List Ext → Option (List String)
+  | [] => some []
+  | e :: r =>
+    match encExt e, encExts r with
+    | some a, some b => some (a ++ b)
+    | _, _ => none
+
+/-- `ctor`: 0 = `…WithConfig(config)`, 1 = the convenience constructor `BasicAuth(fn)` / `KeyAuth(fn)`
+    (all other fields at their defaults), 2 / 3 = the same two with a nil validator (the constructor panics).
+
+    basic: `0 ctor skip realm quoted nhdr hdr* dflt ntbl (u p outcome)*`
+           →  `ran status www ncalls (u p)* wwwValue`
+    key:   `1 ctor skip lookups scheme eh cont nsrc (npairs (name value)*)* dflt ntbl (key outcome)*`
+           →  `ran status ehClass ncalls key*`;  `panic` / `config-panic` otherwise
+    extractors (exported `CreateExtractors(lookups)`, each extractor applied to the request):
+           `2 lookups nsrc (npairs (name value)*)*`  →  `n (0 | 1 nkeys key*)*` / `config-error` -/
 def runLine (line : String) : String :=
   match parseLine pOp line with
   | none => "bad-op"
-  | some (.basic hdrs dflt tbl) =>
-    match basicAuth (lookup2 dflt tbl) b64decode hdrs with
-    | none => "panic"
-    | some o => encBObs o
-  | some (.key lookups scheme eh cont data dflt tbl) =>
-    match parseLookups lookups scheme with
-    | none => "config-panic"
+  | some (.basic ctor skip realm quoted hdrs dflt tbl) =>
+    if ctor ≥ 2 then "config-panic"
+    else
+      let realm := if ctor = 1 then [] else realm
+      match basicAuthMW skip (lookup2 dflt tbl) b64decode hdrs with
+      | none => "panic"
+      | some o => render [encBObs o, encStr (if o.www then wwwValue realm quoted else [])]
+  | some (.key ctor skip lookups scheme eh cont data dflt tbl) =>
+    if ctor ≥ 2 then "config-panic"
+    else
+      let cfg? : Option KCfg :=
+        if ctor = 1 then keyCtorCfg
+        else match parseLookups lookups scheme with
+          | none => none
+          | some srcs => some ⟨srcs, eh, cont⟩
+      match cfg? with
+      | none => "config-panic"
+      | some cfg =>
+        if cfg.sources.length ≠ data.length then "bad-op"
+        else match keyAuthMW skip (lookup1 dflt tbl) cfg data with
+          | none => "panic"
+          | some o => encKObs o
+  | some (.extractors lookups data) =>
+    match createExtractors lookups [] with
+    | none => "config-error"
     | some srcs =>
       if srcs.length ≠ data.length then "bad-op"
-      else match keyAuth (lookup1 dflt tbl) ⟨srcs, eh, cont⟩ data with
+      else match encExts ((srcs.zip data).map fun sd => extract sd.1 sd.2) with
         | none => "panic"
-        | some o => encKObs o
+        | some toks => render (toString srcs.length :: toks)
 
 end C13
